@@ -88,8 +88,16 @@ type checkResult struct {
 	wall       float64
 }
 
+// otherTagged collects, for the selected procedures, the obligations that carry only other
+// properties' tags and whose goal is assumed afterwards (everything but exit-time posts): if one
+// of them fails, obligations of this property proved after it were proved under a fact that does
+// not hold (see unshadow).
+var otherTagged []*Obligation
+var shadowNote = map[*Obligation]string{}
+
 func selectObligations(c *Ctx, prop string, res []*procResult) (obls, probes []*Obligation, facts map[*Obligation][]*Term, unclaimed int) {
 	facts = map[*Obligation][]*Term{}
+	otherTagged = nil
 	for _, ob := range c.lemmaObls {
 		if tagged(ob.Tags, prop) {
 			obls = append(obls, ob)
@@ -107,6 +115,10 @@ func selectObligations(c *Ctx, prop string, res []*procResult) (obls, probes []*
 					continue
 				}
 			} else if len(ob.Tags) > 0 && !tagged(ob.Tags, prop) {
+				if !strings.HasPrefix(ob.Kind, "post") && !strings.HasPrefix(ob.Kind, "resolves") && !strings.HasPrefix(ob.Kind, "frame") {
+					otherTagged = append(otherTagged, ob)
+					facts[ob] = r.proc.entryFacts
+				}
 				continue
 			}
 			obls = append(obls, ob)
@@ -210,6 +222,7 @@ func cmdCheck(args []string) {
 	defer os.RemoveAll(dir)
 	all := append(append([]*Obligation{}, obls...), probes...)
 	solveAll(c, all, facts, dir, timeout, runtime.NumCPU())
+	unshadow(c, obls, facts, dir, timeout)
 
 	known := loadKnown(vd)
 	drivers := loadDrivers(vd)
@@ -438,6 +451,9 @@ func replayObligation(c *Ctx, vd, repo, prop string, ob *Obligation, drivers []D
 		out = out[:8000] + "...(truncated)"
 	}
 	content["solver_output"] = out
+	if n, ok := shadowNote[ob]; ok {
+		content["note"] = n
+	}
 	// keep the query next to the replay file
 	qdir := filepath.Join(vd, "replays", prop)
 	os.MkdirAll(qdir, 0o755)
@@ -671,4 +687,66 @@ func standinsOrEmpty() []map[string]interface{} {
 		return []map[string]interface{}{}
 	}
 	return standins
+}
+
+// unshadow: a call-site assertion, precondition or invariant is assumed once it has been stated.
+// If such an obligation, tagged for other properties only, fails on this tree, the obligations of
+// the checked property that were discharged further down the same procedure were discharged
+// under a fact that does not hold. They are decided again without that fact (every occurrence
+// of the failed goal in their path condition is replaced by true, which only weakens it); one
+// that is no longer discharged is reported like any other failed obligation, with a note.
+func unshadow(c *Ctx, obls []*Obligation, facts map[*Obligation][]*Term, dir string, timeout int) {
+	if len(otherTagged) == 0 {
+		return
+	}
+	sub := filepath.Join(dir, "others")
+	os.MkdirAll(sub, 0o755)
+	solveAll(c, otherTagged, facts, sub, timeout, runtime.NumCPU())
+	var redo []*Obligation
+	for _, o := range otherTagged {
+		if o.Status == "unsat" || len(o.Goal.S) < 3 || o.Goal.S[0] != '(' {
+			continue
+		}
+		for _, q := range obls {
+			if q.Proc != o.Proc || q.Status != "unsat" || q.Solver == "syntactic" {
+				continue
+			}
+			hit := false
+			pc := make([]*Term, len(q.PC))
+			for i, t := range q.PC {
+				if strings.Contains(t.S, o.Goal.S) {
+					hit = true
+					pc[i] = T(strings.ReplaceAll(t.S, o.Goal.S, "true"), t.Sort)
+				} else {
+					pc[i] = t
+				}
+			}
+			if !hit {
+				continue
+			}
+			q.PC = pc
+			shadowNote[q] = "discharged only under the assumption of " + o.Name + " [" + strings.Join(o.Tags, ",") + "], which is not discharged on this tree; decided again without it"
+			redo = append(redo, q)
+		}
+	}
+	if len(redo) == 0 {
+		return
+	}
+	seen := map[*Obligation]bool{}
+	var uniq []*Obligation
+	for _, q := range redo {
+		if !seen[q] {
+			seen[q] = true
+			q.Status, q.Solver = "", ""
+			uniq = append(uniq, q)
+		}
+	}
+	sub2 := filepath.Join(dir, "unshadowed")
+	os.MkdirAll(sub2, 0o755)
+	solveAll(c, uniq, facts, sub2, timeout, runtime.NumCPU())
+	for _, q := range uniq {
+		if q.Status != "unsat" {
+			fmt.Printf("note: %s: %s\n", q.Name, shadowNote[q])
+		}
+	}
 }
